@@ -22,10 +22,14 @@ func (s *sim) drainAction() (Action, bool, bool) {
 			return Action{K: k, A: at.id}, true, false
 		}
 	}
+	if s.busy != nil && s.busy.logPark != nil {
+		return Action{K: "grant", A: s.busy.att.id, D: s.busy.dir, S: "log"}, true, false
+	}
 	if s.busy == nil {
-		if len(s.parks) > 0 {
-			p := s.parks[0]
-			return Action{K: "grant", A: p.h.att.id, D: p.h.dir, S: p.site}, true, false
+		for _, p := range s.parks {
+			if p.site != "log" {
+				return Action{K: "grant", A: p.h.att.id, D: p.h.dir, S: p.site}, true, false
+			}
 		}
 		if s.shutPark != nil {
 			return Action{K: "grant", S: "shutdown"}, true, false
@@ -128,7 +132,7 @@ func (s *sim) checkNotices() {
 	readyN := make([]int, len(gens))
 	goneN := make([]int, len(gens))
 	closures := map[*half]int{}
-	redsIO := map[*attempt]int{}
+	redsIO := map[string]int{} // by remote address: several /io clients may share one
 	refusalSeen := map[*attempt]int{}
 	open := 0 // first generation whose gone notice has not been seen
 	for _, r := range s.recv {
@@ -140,7 +144,7 @@ func (s *sim) checkNotices() {
 		case "ready":
 			found := false
 			for gi, g := range gens {
-				if g.ready && g.readyBy != nil && g.readyBy.att == at && readyN[gi] == 0 {
+				if g.ready && g.readyBy != nil && g.readyBy.att.addr == at.addr && readyN[gi] == 0 {
 					readyN[gi]++
 					found = true
 					break
@@ -152,7 +156,7 @@ func (s *sim) checkNotices() {
 				return
 			}
 		case "gone":
-			if open >= len(gens) || gens[open].endedBy == nil || gens[open].endedBy.att != at {
+			if open >= len(gens) || gens[open].endedBy == nil || gens[open].endedBy.att.addr != at.addr {
 				s.violate("C04", "gone-once", "unexpected 'shell is gone' notice",
 					"a gone notice from attempt %d was displayed (item %d) that does not close the current shell (shell #%d)", at.id, r.idx, open)
 				return
@@ -161,7 +165,7 @@ func (s *sim) checkNotices() {
 			open++
 		case "red":
 			if at.kind == "io" {
-				redsIO[at]++
+				redsIO[at.addr]++
 				continue
 			}
 			h := at.halves()[0]
@@ -203,28 +207,44 @@ func (s *sim) checkNotices() {
 			}
 		}
 	}
+	ioDone := map[string]bool{}
 	for _, at := range s.atts {
 		refused, silent, admitted := 0, 0, 0
-		for _, h := range at.halves() {
-			if h.judged && !h.admitted {
-				if h.expect == "silent" {
-					silent++
-				} else {
-					refused++
+		group := []*attempt{at}
+		if at.kind == "io" {
+			if ioDone[at.addr] {
+				continue
+			}
+			ioDone[at.addr] = true
+			group = nil
+			for _, o := range s.atts {
+				if o.kind == "io" && o.addr == at.addr {
+					group = append(group, o)
 				}
-			} else if h.judged {
-				admitted++
+			}
+		}
+		for _, ga := range group {
+			for _, h := range ga.halves() {
+				if h.judged && !h.admitted {
+					if h.expect == "silent" {
+						silent++
+					} else {
+						refused++
+					}
+				} else if h.judged {
+					admitted++
+				}
 			}
 		}
 		if at.kind == "io" {
-			if redsIO[at] < refused {
+			if redsIO[at.addr] < refused {
 				s.violate("C01", "refusal-told", "operator not told about a refused attempt",
-					"%d halves of /io attempt %d were refused outside shutdown but only %d notices about it were displayed", refused, at.id, redsIO[at])
+					"%d halves of /io attempts from %s were refused outside shutdown but only %d notices about them were displayed", refused, at.addr, redsIO[at.addr])
 				return
 			}
-			if redsIO[at] > refused+silent+admitted {
+			if redsIO[at.addr] > refused+silent+admitted {
 				s.violate("C04", "closure-once", "more closure notices than halves",
-					"/io attempt %d: %d red notices for %d halves", at.id, redsIO[at], refused+silent+admitted)
+					"/io attempts from %s: %d red notices for %d halves", at.addr, redsIO[at.addr], refused+silent+admitted)
 				return
 			}
 			continue
